@@ -4,7 +4,7 @@
    proofs are in ValueProofs*.v.
 
    The model describes the code AFTER the patches findings/D12, D17, D29, D40,
-   D42, D43 (GroupBy looks the key up per element and skips removed members;
+   D42, D43, D44 (GroupBy looks the key up per element and skips removed members;
    Remove(const String&) uses key.Length(); Merge resets before it switches an
    Undefined value to Array; assignment detaches / copies the right-hand side
    before it resets the left-hand side; SetPointerToValue(nullptr) leaves an
@@ -449,6 +449,39 @@ Definition remove_index (v : value) (i : nat) : option value :=
   | _ => Some v
   end.
 
+(* v = ValueType::k (after D44: reset, then the tag): the empty value of that
+   kind.  ValueType::ValuePtr (a null pointer) is not generated. *)
+Definition empty_of_kind (k : N) : value :=
+  if N.eqb k vt_Object then Obj []
+  else if N.eqb k vt_Array then Arr []
+  else if N.eqb k vt_String then Sc (SStr [])
+  else if N.eqb k vt_UIntLong then Sc (SUInt 0)
+  else if N.eqb k vt_IntLong then Sc (SInt 0)
+  else if N.eqb k vt_Double then Sc (SReal 0)
+  else if N.eqb k vt_True then Sc STrue
+  else if N.eqb k vt_False then Sc SFalse
+  else if N.eqb k vt_Null then Sc SNull
+  else Undef 0.
+
+(* t1 = <the ObjectT / ArrayT held by t2>  (operator=(const ObjectT&), (ObjectT&&),
+   the constructors from containers): a copy; nothing when t2 holds no container *)
+Definition assign_cont (v1 v2 : value) : value * value :=
+  (match v2 with Obj _ | Arr _ => copy_value v2 | _ => v1 end, v2).
+
+(* t1 += <the ObjectT / ArrayT held by t2>: an object merges into an object or is
+   appended; a non-empty array is concatenated (holes included), an empty one appended *)
+Definition append_cont (v1 v2 : value) : value * value :=
+  (match v2 with
+   | Obj s2 =>
+     match v1 with
+     | Obj s1 => Obj (slot_merge s1 (copy_members (live s2)))
+     | _ => append_value v1 (copy_value v2)
+     end
+   | Arr [] => append_value v1 (Arr [])
+   | Arr l2 => Arr (arr_items v1 ++ map copy_value l2)
+   | _ => v1
+   end, v2).
+
 Definition set_ptr (id : option nat) : value :=
   match id with Some i => Ptr i | None => Undef 0 end.
 
@@ -644,7 +677,10 @@ Inductive op :=
 | OCtorApp (t : target) (n : scalar) (p : scalar)        (* Value tmp{n}; tmp += p; t = move(tmp) *)
 | ORead (t : target)
 | OGroupBy (t1 t2 : target) (k : str)                    (* ok = t2.GroupBy(t1, k) *)
-| ORender (t : target) (k : str).
+| ORender (t : target) (k : str)
+| OAssignKind (t : target) (k : N)                       (* t = ValueType::k / Value tmp{k}; t = move(tmp) *)
+| OAssignCont (t1 t2 : target)                           (* t1 = *t2.GetObject() / *t2.GetArray() *)
+| OAppendCont (t1 t2 : target).                          (* t1 += *t2.GetObject() / *t2.GetArray() *)
 
 (* path resolution by the non-inserting lookups GetValue(key) / GetValue(index):
    fails on a missing or Undefined member *)
@@ -812,6 +848,9 @@ Definition step (st : state) (o : op) : outcome state :=
          | _, _ => Skipped
          end
   | ORender t k => match st_get st t with Some v => Done st (render_groups v k) | None => Skipped end
+  | OAssignKind t k => unary st t (fun _ => Some (empty_of_kind k))
+  | OAssignCont t1 t2 => binary st t1 t2 assign_cont
+  | OAppendCont t1 t2 => binary st t1 t2 append_cont
   end.
 
 Definition dump_state (st : state) : list N := join_with 38 (map dump_value st).   (* '&' between variables *)
@@ -1005,6 +1044,33 @@ Definition d_remove_index (d : doc) (i : nat) : option doc :=
   | DArr l => Some (if Nat.ltb i (length l) then DArr (d_set_nth i DUndef l) else d)
   | _ => Some d
   end.
+
+Definition d_empty_of_kind (k : N) : doc :=
+  if N.eqb k vt_Object then DObj false []
+  else if N.eqb k vt_Array then DArr []
+  else if N.eqb k vt_String then DSc (SStr [])
+  else if N.eqb k vt_UIntLong then DSc (SUInt 0)
+  else if N.eqb k vt_IntLong then DSc (SInt 0)
+  else if N.eqb k vt_Double then DSc (SReal 0)
+  else if N.eqb k vt_True then DSc STrue
+  else if N.eqb k vt_False then DSc SFalse
+  else if N.eqb k vt_Null then DSc SNull
+  else DUndef.
+
+Definition d_assign_cont (d1 d2 : doc) : doc * doc :=
+  (match d2 with DObj _ _ | DArr _ => d_copy d2 | _ => d1 end, d2).
+
+Definition d_append_cont (d1 d2 : doc) : doc * doc :=
+  (match d2 with
+   | DObj _ m2 =>
+     match d1 with
+     | DObj b1 m1 => DObj b1 (m_merge m1 (d_copy_members m2))
+     | _ => d_append d1 (d_copy d2)
+     end
+   | DArr [] => d_append d1 (DArr [])
+   | DArr l2 => DArr (d_items d1 ++ map d_copy l2)
+   | _ => d1
+   end, d2).
 
 Definition d_set_ptr (id : option nat) : doc := match id with Some i => DPtr i | None => DUndef end.
 
@@ -1292,6 +1358,9 @@ Definition d_step_g (gb : doc -> str -> bool * option doc) (st : dstate) (o : op
          | _, _ => Skipped
          end
   | ORender t k => match ds_get st t with Some v => Done st (d_render_groups_g gb v k) | None => Skipped end
+  | OAssignKind t k => d_unary st t (fun _ => Some (d_empty_of_kind k))
+  | OAssignCont t1 t2 => d_binary st t1 t2 d_assign_cont
+  | OAppendCont t1 t2 => d_binary st t1 t2 d_append_cont
   end.
 Definition d_step := d_step_g d_group_by.
 Definition d_render_groups := d_render_groups_g d_group_by.
